@@ -47,12 +47,13 @@ struct StreamGen {
     /// DIMACS stream shape: 0 clauses only (clause count unspecified); 1 declared clause count, all
     /// clauses, then a long tail of comment / blank lines; 2 a long prelude of comment / blank lines
     /// in front of the header; 3 clauses split over lines around comments, and blocks of thousands of
-    /// comment / blank lines between clauses
+    /// comment / blank lines between clauses and, every other time, inside a clause that is left open
     dimacs_profile: u8,
     /// profile 1: the declared number of clauses
     n_declared: u64,
     filler_left: u64,
     filler_no: u64,
+    tail_pending: bool,
     max_item: Rc<Cell<u64>>,
 }
 
@@ -224,7 +225,10 @@ impl StreamGen {
                     self.emitted += out.len() as u64;
                     return false;
                 }
-            } else if self.emitted + out.len() as u64 >= self.target && !(dimacs && self.dimacs_profile == 1 && self.k < self.n_declared) {
+            } else if self.emitted + out.len() as u64 >= self.target
+                && !(dimacs && self.dimacs_profile == 1 && self.k < self.n_declared)
+                && !(dimacs && self.dimacs_profile == 3 && (self.tail_pending || self.filler_left > 0))
+            {
                 self.emitted += out.len() as u64;
                 return false;
             }
@@ -239,8 +243,26 @@ impl StreamGen {
                     self.filler(out);
                     continue;
                 }
+                if self.tail_pending {
+                    // the clause that was left open in front of the block of comment / blank lines
+                    self.tail_pending = false;
+                    out.extend_from_slice(b"  -3 0\n");
+                    continue;
+                }
                 if self.k % 1000 == 999 {
                     self.filler_left = 3000;
+                    if (self.k / 1000) % 2 == 1 {
+                        // every other block stands INSIDE a clause: the clause's line ends without the
+                        // terminating 0, the clause goes on behind the block
+                        out.extend_from_slice(match self.fmt {
+                            Fmt::Wcnf => b"5 1 2 \n",
+                            Fmt::Gcnf => b"{1} 1 2\n",
+                            _ => b"1 2\n",
+                        });
+                        self.k += 1;
+                        self.tail_pending = true;
+                        continue;
+                    }
                 }
             }
             if self.big > 0 && !self.big_done && !item_based && self.emitted + out.len() as u64 > 65536 {
@@ -954,6 +976,7 @@ impl Monitor for C10 {
             n_declared: target / 2 / 16,
             filler_left: 0,
             filler_no: 0,
+            tail_pending: false,
             max_item: max_item.clone(),
         };
         let calls = Rc::new(Cell::new(0u64));
